@@ -38,6 +38,12 @@ class WorkCounter:
     def _on_start(self, code, offset):
         self.count += 1
         if self.count > self.budget:
+            # Never raise at the entry of jedi's own bookkeeping (recursion detector, memoising
+            # wrappers): an exception there is an asynchronous one that no try/finally in the
+            # code under test could be expected to survive; the next ordinary function gets it.
+            fn = code.co_filename
+            if fn.endswith(('recursion.py', 'inference/cache.py', 'jedi/cache.py', 'contextlib.py')):
+                return
             # disarm first, so that the exception is not raised again inside handlers
             self.tripped = True
             self.budget = float('inf')
